@@ -140,6 +140,7 @@ def check_r11a(repo, rep):
         applications.append(c)
     pos_sweeps = 0
     kw_sweeps = 0
+    pos_stmt = kw_stmt = None
     for c in applications:
         loops = enclosing_loops(c, fi.node)
         srcs = set()
@@ -154,8 +155,18 @@ def check_r11a(repo, rep):
                loc=mod.loc(c), construct=model.norm(c))
         if 'args' in srcs:
             pos_sweeps += 1
+            pos_stmt = model.enclosing(c, ast.stmt)
+            while pos_stmt is not None and model.enclosing(
+                    pos_stmt, (ast.For, ast.While)) is not None and \
+                    model.enclosing_function(pos_stmt) is fi.node:
+                pos_stmt = model.enclosing(pos_stmt, (ast.For, ast.While))
         if 'kwargs' in srcs:
             kw_sweeps += 1
+            kw_stmt = model.enclosing(c, ast.stmt)
+            while kw_stmt is not None and model.enclosing(
+                    kw_stmt, (ast.For, ast.While)) is not None and \
+                    model.enclosing_function(kw_stmt) is fi.node:
+                kw_stmt = model.enclosing(kw_stmt, (ast.For, ast.While))
         if not loops:
             rep.ob('R11a', fi.key + '/sweep-is-a-traversal', False,
                    'argument evaluation `%s` is not part of a traversal of '
@@ -167,6 +178,21 @@ def check_r11a(repo, rep):
     rep.ob('R11a', fi.key + '/one-keyword-sweep', kw_sweeps == 1,
            'expected exactly one traversal of the keyword arguments that '
            'evaluates them, found %d' % kw_sweeps, loc=mod.loc(fi.node))
+    # positional arguments before keyword arguments (the written order of
+    # a call: keywords follow positionals)
+    if pos_stmt is not None and kw_stmt is not None:
+        g = cfgmod.CFG(fi.node)
+        a, b = g.node_of(pos_stmt), g.node_of(kw_stmt)
+        ok = a is not None and b is not None and a is not b and \
+            g.dominates(a, b)
+        rep.ob('R11a', fi.key + '/positional-before-keyword', ok,
+               'the sweep over the positional arguments must run before '
+               'the sweep over the keyword arguments (arguments are '
+               'evaluated in the order they are written); here `%s` does '
+               'not precede `%s`' % (
+                   model.norm(pos_stmt).split('\n')[0][:60],
+                   model.norm(kw_stmt).split('\n')[0][:60]),
+               loc=mod.loc(kw_stmt))
     # in index order: the positional sweep enumerates `args` directly
     for c in applications:
         for lp in enclosing_loops(c, fi.node):
@@ -201,6 +227,51 @@ def check_r11a(repo, rep):
     return nsites
 
 
+def lazy_agreement_vars(fi):
+    """(agreed, per_candidate): the two names compared with != / == in
+    choose_overload; the agreed one is initialised to None outside the
+    candidate loops."""
+    none_init = set()
+    for st in model.strip_docstring(fi.node.body):
+        if isinstance(st, ast.Assign) and isinstance(
+                st.value, ast.Constant) and st.value.value is None:
+            for t in st.targets:
+                if isinstance(t, ast.Name):
+                    none_init.add(t.id)
+    for n in model.walk_shallow(fi.node):
+        if isinstance(n, ast.Compare) and len(n.ops) == 1 and isinstance(
+                n.ops[0], (ast.NotEq, ast.Eq)) and isinstance(
+                n.left, ast.Name) and isinstance(
+                n.comparators[0], ast.Name):
+            a, b = n.left.id, n.comparators[0].id
+            if a in none_init and b not in none_init:
+                return a, b
+            if b in none_init and a not in none_init:
+                return b, a
+    return None, None
+
+
+def _keyed_iteration(it):
+    """Does iterating `it` yield (key, value) pairs whose first component
+    is the argument's index / keyword?  enumerate(x), x.items(), list()/
+    tuple() of those, and concatenations of those."""
+    if isinstance(it, ast.Call) and isinstance(it.func, ast.Name) and \
+            it.func.id in ('list', 'tuple') and len(it.args) == 1:
+        return _keyed_iteration(it.args[0])
+    if isinstance(it, ast.BinOp) and isinstance(it.op, ast.Add):
+        return _keyed_iteration(it.left) and _keyed_iteration(it.right)
+    if isinstance(it, ast.Call) and isinstance(it.func, ast.Name) and \
+            it.func.id == 'enumerate':
+        return True
+    if isinstance(it, ast.Call) and isinstance(it.func, ast.Attribute) and \
+            it.func.attr == 'items':
+        return True
+    if isinstance(it, ast.Call) and model.norm(it.func) in (
+            'itertools.chain',) and it.args:
+        return all(_keyed_iteration(a) for a in it.args)
+    return False
+
+
 def check_lazy_keys(repo, rep):
     """R11f: the per-candidate set of lazy argument positions is keyed
     exactly like the arguments the evaluation sweep walks: the index of a
@@ -210,14 +281,8 @@ def check_lazy_keys(repo, rep):
     by **kwargs."""
     mod = repo.module(RUNNER)
     fi = mod.func('choose_overload')
-    # the variable compared with / assigned to the agreed lazy set
-    lazy_var = None
-    for n in model.walk_shallow(fi.node):
-        if isinstance(n, ast.Compare) and len(n.ops) == 1 and isinstance(
-                n.ops[0], (ast.NotEq, ast.Eq)) and isinstance(
-                n.left, ast.Name) and 'lazy' in n.left.id and isinstance(
-                n.comparators[0], ast.Name):
-            lazy_var = n.comparators[0].id
+    # the per-candidate set is the one compared with the agreed set
+    agreed, lazy_var = lazy_agreement_vars(fi)
     if lazy_var is None:
         rep.ob('R11f', fi.key + '/lazy-set', False,
                'cannot find the comparison of the candidates\' lazy '
@@ -272,11 +337,7 @@ def check_lazy_keys(repo, rep):
             if isinstance(tgt, ast.Tuple) and tgt.elts and isinstance(
                     tgt.elts[0], ast.Name):
                 first = tgt.elts[0].id
-            keyed = isinstance(it, ast.Call) and (
-                (isinstance(it.func, ast.Name) and
-                 it.func.id == 'enumerate') or
-                (isinstance(it.func, ast.Attribute) and
-                 it.func.attr == 'items'))
+            keyed = _keyed_iteration(it)
             keys_only = isinstance(tgt, ast.Name) and isinstance(
                 it, ast.Call) and isinstance(it.func, ast.Attribute) and \
                 it.func.attr == 'keys' and tgt.id == elt.id
@@ -784,6 +845,57 @@ def check_r11e(repo, rep, uni):
     rep.floor('per-element lambda obligations', n, 8)
 
 
+def check_lambda_evaluates_every_time(repo, rep):
+    """R11g: the callable that Lambda.convert builds for a lazy argument
+    evaluates the argument expression on *every* invocation: each of its
+    normal exits is preceded by the evaluating call (no result remembered
+    from an earlier invocation)."""
+    yt = repo.module('yaql.language.yaqltypes')
+    conv = yt.func('Lambda.convert')
+    call = yt.func('Lambda._call')
+    wrappers = [f for q, f in yt.functions.items() if f.parent_func is conv]
+    returned = {r.value.id for r in model.walk_shallow(conv.node)
+                if isinstance(r, ast.Return) and isinstance(
+                    r.value, ast.Name)}
+    wrappers = [f for f in wrappers if f.name in returned]
+    if not wrappers:
+        raise AnalysisError('anchor vanished: the callable returned by '
+                            'Lambda.convert')
+    for w in wrappers:
+        g = cfgmod.CFG(w.node)
+        evals = []
+        for nd in g.nodes:
+            for c in cfgmod.node_calls(nd):
+                if isinstance(c.func, ast.Attribute) and \
+                        c.func.attr == call.name and isinstance(
+                        c.func.value, ast.Name) and \
+                        c.func.value.id == 'self':
+                    evals.append(nd)
+                elif is_eval_site(c):
+                    evals.append(nd)
+        ok = bool(evals) and not g.reaches_exit_without(g.entry, evals)
+        rep.ob('R11g', w.key + '/evaluates-on-every-call', ok,
+               'the callable built for a Lambda parameter can return '
+               'without evaluating the argument expression (a result kept '
+               'from an earlier invocation, or a shortcut): a per-element '
+               'lambda such as select(f()) is then evaluated fewer times '
+               'than elements are consumed', loc=yt.loc(w.node))
+    # and _call itself evaluates an Expression unconditionally
+    g = cfgmod.CFG(call.node)
+    sites = [c for c in model.calls_in(call.node, shallow=True)
+             if is_eval_site(c)]
+    ok = bool(sites)
+    for c in sites:
+        gs = [e for e, p in norm.guards(c, call.node)
+              if 'isinstance' not in model.norm(e)]
+        if gs:
+            ok = False
+    rep.ob('R11g', call.key + '/evaluates-expressions', ok,
+           'Lambda._call must evaluate an Expression argument whenever it '
+           'is invoked (the only test on that path may be the isinstance '
+           'test on the value)', loc=yt.loc(call.node))
+
+
 def run(repo, rep):
     rep.rule('R11a', 'ONE-SWEEP: in choose_overload eager arguments are '
              'evaluated by exactly one index-ordered traversal of the '
@@ -791,6 +903,9 @@ def run(repo, rep):
              'loop over candidates, skipping lazy positions')
     rep.rule('R11f', 'LAZY-KEYS: the lazy argument set is keyed by the '
              'positional index and the call\'s keyword, like the sweep')
+    rep.rule('R11g', 'LAMBDA-EVALUATES-EVERY-TIME: the callable built for a '
+             'lazy argument passes through the evaluating call on every '
+             'path to a normal exit')
     rep.rule('R11b', 'MATCHING-NEVER-EVALUATES: no expression evaluation is '
              'reachable from map_args, check, translate_args, '
              '_is_specialization_of, or get_delegate outside its thunks')
@@ -816,6 +931,7 @@ def run(repo, rep):
     rep.floor('expression evaluation sites', len(sites), 9)
     check_r11a(repo, rep)
     check_lazy_keys(repo, rep)
+    check_lambda_evaluates_every_time(repo, rep)
     check_r11b(repo, rep, uni)
     check_r11c(repo, rep, uni)
     check_r11d(repo, rep, uni)
